@@ -52,10 +52,12 @@ func runC03(c *Ctx) {
 			}
 		case n == relQctx+".NewContext":
 			newCtx = ci
-		case n == "dynamic" && isParamValue(p, ci.Call.Value, h.Params[len(h.Params)-1]):
-			packCall = ci
 		}
 	})
+	sites := handlerPackSites(p, h)
+	if sites.primary != nil {
+		packCall = sites.primary.call
+	}
 
 	c.rule("R2", "the packed message is the plugins' response or SetReply(query) with SERVFAIL (error) / REFUSED (no answer)", 3)
 	checkSinglePackSite(c, h)
@@ -140,37 +142,57 @@ func runC03(c *Ctx) {
 	}
 	resp := packCall.Call.Args[0]
 	errV := ssa.Value(execCall)
-	// every return after validation hands back the packed payload; nil only when packing itself failed
+	// every return after validation hands back a packed payload; nil only when packing itself failed — and (D40) only
+	// when the packing of the fallback SERVFAIL failed too: a response that cannot be packed is still answered
 	{
-		var payload, packErr ssa.Value
-		for _, r := range referrers(packCall) {
-			if ex, ok := r.(*ssa.Extract); ok {
-				if ex.Index == 0 {
-					payload = ex
-				} else {
-					packErr = ex
+		allSites := append([]*packSite{sites.primary}, sites.fallbacks...)
+		isPayload := func(v ssa.Value) bool {
+			for _, st := range allSites {
+				if st.payload != nil && v == st.payload {
+					return true
 				}
 			}
+			return false
 		}
 		good, n := true, 0
 		why := ""
+		answered := true
 		for _, r := range returnsOf(h) {
 			if newCtx == nil || !instrDominates(newCtx, r) {
 				continue
 			}
 			n++
 			rv := returnedValues(r)[0]
-			if rv == payload && payload != nil {
+			leaves := expandCases(rv, nil, 0)
+			allPayload := len(leaves) > 0
+			for _, l := range leaves {
+				if !isPayload(l.val) {
+					allPayload = false
+				}
+			}
+			if allPayload {
 				continue
 			}
 			if isNilConst(rv) {
-				onPackErr := false
+				onPackErr, onFallbackErr := false, false
 				for _, g := range guardsOfInstr(r) {
-					if cm, ok := g.asCmp(); ok && cm.X == packErr && isNilConst(cm.Y) && cm.Op == token.NEQ {
-						onPackErr = true
+					cm, ok := g.asCmp()
+					if !ok || !isNilConst(cm.Y) || cm.Op != token.NEQ {
+						continue
+					}
+					for i, st := range allSites {
+						if st.err != nil && cm.X == st.err {
+							onPackErr = true
+							if i > 0 {
+								onFallbackErr = true
+							}
+						}
 					}
 				}
 				if onPackErr {
+					if !onFallbackErr {
+						answered = false
+					}
 					continue
 				}
 				good, why = false, "a validated query can end without a reply (return nil not caused by a packing error)"
@@ -179,6 +201,11 @@ func runC03(c *Ctx) {
 			good, why = false, "Handle returns "+exprStr(rv)+" instead of the packed reply"
 		}
 		c.check(good && n > 0, "reply:returned", instrPos(packCall), "after validation every return hands back the packed reply (nil only when packing failed)", why)
+		c.check(answered && len(sites.fallbacks) > 0, "pack-failure-answered", instrPos(packCall), "a response that cannot be packed is answered with a fresh SERVFAIL (nil only if that cannot be packed either)",
+			"when the response cannot be packed (miekg/dns unpacks some records it refuses to pack, e.g. an HTTPS record with an empty alpn-id) Handle returns nil: the UDP client gets no reply, a TCP connection is closed, and with the cache in front every later query for the question fails the same way until the entry expires (D40)")
+		for _, fb := range sites.fallbacks {
+			checkFallbackReply(c, h, q, fb, "reply:synth:pack-failure")
+		}
 	}
 	for _, lf := range expandCases(resp, nil, 0) {
 		switch v := lf.val.(type) {
@@ -273,10 +300,10 @@ func runC03(c *Ctx) {
 				}
 			}
 		})
-		c.check(good && nRA == 1, "ra-forced", instrPos(packCall), "RecursionAvailable = true is the only RA write and dominates packing", "RA is not set on every reply, or is overwritten afterwards")
+		c.check(good && nRA == 1+len(sites.fallbacks), "ra-forced", instrPos(packCall), "RecursionAvailable = true is the only RA write (besides the fallback reply's own) and dominates packing", "RA is not set on every reply, or is overwritten afterwards")
 	}
 
-	c.rule("R4", "OPT re-attach, then UDP truncation to a size in [512,65535] iff the query came over UDP, then pack", 4)
+	c.rule("R4", "OPT re-attach, then UDP truncation to a size in [512,65507] iff the query came over UDP, then pack", 4)
 	{
 		// the append of RespOpt into resp.Extra
 		var optStore ssa.Instruction
@@ -389,16 +416,36 @@ func runC03(c *Ctx) {
 				if g != nil {
 					eachInstr(g, func(y ssa.Instruction) {
 						if ph, ok := y.(*ssa.Phi); ok {
-							for _, e := range ph.Edges {
-								if n, isC := constInt(e); isC && n != 0 && n != 512 {
+							for i, e := range ph.Edges {
+								n, isC := constInt(e)
+								if !isC || n == 0 {
+									continue
+								}
+								// a constant comes in either as the floor (s < 512 -> 512) or as the datagram cap
+								// (s > K -> K, D41: K is at most what a UDP datagram carries)
+								kind := ""
+								for _, g := range guardsOf(ph.Block().Preds[i]) {
+									if cm, ok := g.asCmp(); ok {
+										if k, isK := constInt(cm.Y); isK && k == n {
+											switch cm.Op {
+											case token.LSS, token.LEQ:
+												kind = "floor"
+											case token.GTR, token.GEQ:
+												kind = "cap"
+											}
+											break
+										}
+									}
+								}
+								if !(kind == "floor" && n == 512) && !(kind == "cap" && n >= 512 && n <= 65507) {
 									okIv = false
 								}
 							}
 						}
 					})
 				}
-				c.check(argOK && okIv && lo >= 512 && hi <= 65535, "udp-size", instrPos(cl), fmt.Sprintf("size = getValidUDPSize(client OPT) in [%d,%d]", lo, hi),
-					fmt.Sprintf("the UDP size limit is in [%d,%d] (client OPT used: %v); it must be within [512, 65535]", lo, hi, argOK))
+				c.check(argOK && okIv && lo >= 512 && hi <= 65507, "udp-size", instrPos(cl), fmt.Sprintf("size = getValidUDPSize(client OPT) in [%d,%d]", lo, hi),
+					fmt.Sprintf("the UDP size limit is in [%d,%d] (client OPT used: %v); it must be the advertised size, raised only to the 512-byte minimum and capped at no more than the 65507 bytes a datagram can carry (a larger reply cannot be sent at all: EMSGSIZE, the client gets no reply — D41)", lo, hi, argOK))
 			} else {
 				c.fail("udp-size", instrPos(truncCall), "the truncation size is %s, not getValidUDPSize(client OPT)", exprStr(sz))
 			}
@@ -864,25 +911,9 @@ func checkSinglePackSite(c *Ctx, h *ssa.Function) {
 	p := c.P
 	// the pack function is used exactly once, directly: every reply goes through the steps checked below
 	{
-		pk := h.Params[len(h.Params)-1]
-		nCalls, escapes := 0, ""
-		eachInstrDeep(h, func(f *ssa.Function, in ssa.Instruction) {
-			ci, ok := in.(ssa.CallInstruction)
-			if !ok {
-				return
-			}
-			if callName(ci) == "dynamic" && isParamValue(p, ci.Common().Value, pk) {
-				nCalls++
-				return
-			}
-			for _, a := range ci.Common().Args {
-				if isParamValue(p, a, pk) {
-					escapes = callName(ci)
-				}
-			}
-		})
-		c.check(nCalls == 1 && escapes == "", "single-pack-site", h.Pos(), "the reply is packed at exactly one place in Handle",
-			fmt.Sprintf("the pack function is called %d times / handed to %q: some replies bypass RA forcing, OPT re-attachment or UDP truncation", nCalls, escapes))
+		sites := handlerPackSites(p, h)
+		c.check(sites.primary != nil && sites.problem == "", "single-pack-site", h.Pos(), "the reply is packed at exactly one place in Handle (plus the fallback for a reply that cannot be packed)",
+			fmt.Sprintf("the pack function is not called at one place (%s): some replies bypass RA forcing, OPT re-attachment or UDP truncation", sites.problem))
 	}
 }
 
@@ -954,6 +985,14 @@ func checkIdentityWriters(c *Ctx) {
 			seen[fw.Instr] = true
 			if st, ok := fw.Instr.(*ssa.Store); ok && localQuestion(st.Addr) {
 				continue
+			}
+			// a whole message copied by value into a local (`m := *r`): id and question come along unchanged
+			if st, ok := fw.Instr.(*ssa.Store); ok {
+				if al, isAl := st.Addr.(*ssa.Alloc); isAl && strings.HasSuffix(typeKey(al.Type()), "dns.Msg") {
+					if ld, isLd := st.Val.(*ssa.UnOp); isLd && ld.Op == token.MUL {
+						continue
+					}
+				}
 			}
 			c.see(fw.Fn)
 			key := "identity-write@" + funcName(fw.Fn) + ":" + fieldTail(k)
